@@ -55,6 +55,14 @@ CLAIMED = {
          "load_adj_matrix is NOT verified (nested lists of truthy cells, integer indexing): TRUSTED registration only + bounded stand-in on every "
          "run (explorer op adj_matrix: random square / non-square matrices and wrong side arrays, ValueError-before-touching compared on the "
          "observable state), labelled bounded and not counted as proved."),
+ "C20": ("proof", "12.5/C20", "Two parts. PROVED: the materialisation step - load_adj_dict's contract (see C11) gives, for every adjacency dict, a universe "
+         "whose members are exactly the mentioned vertices and in which every created link has exactly the requested class and both ends among "
+         "the members; with distinct fresh keys (what randgraph passes) that is `count` vertices, every link of the requested type with both ends "
+         "inside. BOUNDED, not proved: randgraph's own body (sample sizes via float arithmetic, the random module, an allocating comprehension are "
+         "outside the symbolic subset): registered with a TRUSTED contract and checked on every run by the explorer operation `randgraph` "
+         "(counts 1..7 incl. those where the default connectivity exceeds 1, four edge types, five connectivity settings, both ensurelink values, "
+         "seeds drawn from 10^6): no exception, count and i attributes, link types, ends inside, first-end guarantee, same graph after re-seeding. "
+         "Reproducibility is a two-run property and is only covered by that bounded part."),
  "C12": ("proof", "6/C12", "(1) ownership discipline of the private containers, checked syntactically on every occurrence in the tree; (2) every read "
          "accessor / query is verified against a contract whose result is a tuple value or a container allocated by the call (Vertex.links, "
          "Link.vertices, Universe.vertices, BaseObject.universes, neighbors() - separate lists for the caller and for the memo -, find_links, "
